@@ -6,7 +6,15 @@ re-hashed with `migrate hash` before the next attempt), or the k-th revision wri
 (SQLite trigger on the revision table, RAISE(FAIL)). Up to two faulted attempts, then a clean run, then a
 further run that must find nothing to do. Every statement inserts its id into a journal table without
 uniqueness; two logging triggers record every statement effect and every revision write that reaches the
-table, in order (see c09_lib). The verdict is computed offline by c09_lib.judge.
+table, in order (see c09_lib). The verdict is computed offline by c09_lib.judge from observed things only.
+
+The enumeration is ADAPTIVE, the executor's write schedule is not assumed anywhere: from a start state (a
+database file) the attempt is first run without a fault; the statements X it executed and the number W of
+revision writes that reached the table are what can be made to fail from that state: every statement of X,
+every k in 1..W, and for every statement x of X the LAST write of the attempt in which x fails (the write
+that records the failure; its number is read off the x-attempt). The state after a faulted attempt is a
+snapshot of the database file from which the second faults are enumerated the same way. The fault-free run
+from a state, continued by the no-op run, is at the same time the verdict of the case that led to the state.
 
 The revision table is created by the real CLI (`migrate apply` on an empty directory) so that it exists -
 and is EMPTY - when the first attempt starts; the journal/event tables make the database "not clean", hence
@@ -20,52 +28,56 @@ import sys
 import vlib
 import c09_lib as L
 
+MAX_FAULTS = 2
+
 
 # ------------------------------------------------------------------------------------------------
-# plan: a pure function of (seed, tier)
+# plan: a pure function of (seed, tier). A root = directory shape + `apply <n>` counts of the faulted attempts
+# + how many second faults are tried after each first fault ("all" or a seeded sample of that size).
 # ------------------------------------------------------------------------------------------------
 def plan(ctx):
-    cases = []
+    roots = []
 
-    def singles(shape, n=None):
-        out = [{"shape": shape, "faults": []}] if not n else []
-        for f1 in L.faults_from(shape, L.fresh(shape), count=(n or [0])[0]):
-            out.append({"shape": shape, "faults": [f1], "n": n})
-        return out
-
-    def pairs(shape, n=None):
-        out = []
-        n = n or [0, 0]
-        for f1 in L.faults_from(shape, L.fresh(shape), count=n[0]):
-            rec, _, _, _ = L.simulate(shape, L.fresh(shape), f1, n[0])
-            for f2 in L.faults_from(shape, rec, count=n[1]):
-                out.append({"shape": shape, "faults": [f1, f2], "n": n if any(n) else None})
-        return out
+    def add(shape, n=None, pairs="all"):
+        roots.append({"shape": list(shape), "n": n, "pairs": pairs})
 
     if ctx.quick():
         rnd = ctx.rand("plan")
         fixed = [[1], [2], [1, 2], [3, 1], [2, 1, 2]]
         extra = rnd.choice([s for s in L.all_shapes() if s not in fixed and sum(s) <= 5])
+        with_pairs = ([2], [1, 1], [2, 2], [1, 3], [1, 1, 1], [2, 1, 2], extra)
         for sh in fixed + [extra, [1, 0, 1]]:  # the last one has a file without statements (comments only)
-            cases += singles(sh)
-        pool = []
-        for sh in ([2], [1, 1], [2, 2], [1, 3], [1, 1, 1], [2, 1, 2], extra):
-            pool += pairs(sh)
-        cases += rnd.sample(pool, 110)
-        cases += rnd.sample(pairs([2, 2], [1, 1]) + singles([1, 2, 1], [1]), 10)
-        return cases
+            add(sh, pairs=1 if sh in with_pairs else 0)
+        for sh in with_pairs:
+            if not any(r["shape"] == sh for r in roots):
+                add(sh, pairs=1)
+        add([2, 2], n=[1, 1], pairs=1)
+        add([1, 2, 1], n=[1, 0], pairs=0)
+        return roots
     for sh in L.all_shapes() + [[0], [0, 1], [1, 0], [1, 0, 1], [0, 0, 2], [2, 0, 2]]:
-        cases += singles(sh)
-        cases += pairs(sh)
-    # apply-with-count attempts (`migrate apply 1`, then 1 or 2), all pairs on some shapes
+        add(sh)
+    # apply-with-count attempts (`migrate apply 1`, then 1 or 2)
     for sh, n in (([1, 1], [1, 1]), ([2, 2], [1, 1]), ([1, 2, 1], [1, 2]), ([2, 1, 2], [1, 1]), ([3, 3, 1], [1, 2])):
-        cases += singles(sh, n[:1]) + pairs(sh, n)
-    return cases
+        add(sh, n=n)
+    return roots
 
 
 # ------------------------------------------------------------------------------------------------
 # execution
 # ------------------------------------------------------------------------------------------------
+class Node:
+    """A state: the database file `db` reached from the template by the faulted attempts `attempts`."""
+
+    def __init__(self, root, faults, attempts, db, d=None):
+        self.root, self.faults, self.attempts, self.db, self.dir = root, faults, attempts, db, d
+        self.w = 0      # revision writes of the fault-free attempt from this state
+        self.xs = []    # statements it executed
+
+    def case(self, more=()):
+        n = self.root["n"]
+        return {"shape": self.root["shape"], "faults": self.faults + list(more), "n": n if n and any(n) else None}
+
+
 class Runner:
     def __init__(self, ctx):
         self.ctx = ctx
@@ -106,14 +118,13 @@ class Runner:
         with self.ctx.lock:
             self.dirs[key] = os.path.join(d, "migrations")
 
-    def prepare(self, cases):
+    def prepare(self, shapes):
         self.make_db_template()
         keys = set()
-        for c in cases:
-            keys.add((tuple(c["shape"]), None))
-            for f in c["faults"]:
-                if f.get("x"):
-                    keys.add((tuple(c["shape"]), f["x"]))
+        for sh in shapes:
+            keys.add((tuple(sh), None))
+            for x in L.canon(sh):
+                keys.add((tuple(sh), x))
         self.ctx.par(sorted(keys, key=str), self.make_dir)
 
     @staticmethod
@@ -121,63 +132,72 @@ class Runner:
         con = sqlite3.connect("file:%s?mode=ro" % db, uri=True)
         try:
             j = [r[0] for r in con.execute("SELECT id FROM j ORDER BY rowid")]
-            ev = [tuple(r) for r in con.execute("SELECT att, kind, a, applied, old_applied, err, fired FROM verif_ev ORDER BY n")]
+            ev = [tuple(r) for r in con.execute("SELECT att, kind, a, applied, old_applied, err, fired, total FROM verif_ev ORDER BY n")]
         finally:
             con.close()
         return j, ev
 
-    def run_case(self, case):
+    def workdir(self, src_db):
         d = self.ctx.casedir()
-        try:
-            return self._run_case(case, d)
-        finally:
-            if not os.environ.get("VERIF_KEEP"):
-                shutil.rmtree(d, ignore_errors=True)
+        shutil.copy(src_db, os.path.join(d, "db.sqlite"))
+        return d
 
-    def _run_case(self, case, d):
+    def drop(self, d):
+        if d and not os.environ.get("VERIF_KEEP"):
+            shutil.rmtree(d, ignore_errors=True)
+
+    def attempt(self, d, case, prev, kind, fault):
+        """One CLI run in directory d (holding db.sqlite) as attempt number len(prev) of the case."""
         shape = tuple(case["shape"])
+        ai = len(prev)
         db = os.path.join(d, "db.sqlite")
-        shutil.copy(self.db, db)
         mig = os.path.join(d, "migrations")
-        steps = [("fault", f) for f in case["faults"]] + [("clean", None), ("noop", None)]
+        shutil.rmtree(mig, ignore_errors=True)
+        shutil.copytree(self.dirs[(shape, (fault or {}).get("x"))], mig)
+        con = sqlite3.connect(db)
+        con.executescript(L.trigger_sql(ai, (fault or {}).get("w") or 0))
+        con.commit()
+        con.close()
         ns = list(case.get("n") or [])
+        args = ["migrate", "apply"]
+        if kind == "fault" and ai < len(ns) and ns[ai]:
+            args.append(str(ns[ai]))
+        args += ["--dir", "file://migrations", "--url", "sqlite://" + db, "--tx-mode", "none"]
+        allow_dirty = not (prev[-1]["j_after"] if prev else [])
+        if allow_dirty:
+            args.append("--allow-dirty")
+        tf = os.path.join(d, "trace.%d" % ai)
+        rc, out, err = self._cli(args, d, env={"VERIF_TRACE": tf})
+        trace = [ln.strip() for ln in open(tf)] if os.path.exists(tf) else []
+        j, ev = self.read(db)
+        return {"kind": kind, "fault": fault, "rc": rc, "out": (out[-1500:] + "\n" + err[-800:]), "allow_dirty": allow_dirty,
+                "x_reached": L.MISSING in out or L.MISSING in err,
+                "events": [e[1:] for e in ev if e[0] == ai], "revs_before": prev[-1]["revs_after"] if prev else [],
+                "revs_after": vlib.dump_db(db)["revisions"], "j_after": j,
+                "rev_before_hooks": sum(1 for t in trace if t.startswith("rev.before "))}
+
+    def run_linear(self, case):
+        """The whole case in one directory (replay)."""
+        d = self.workdir(self.db)
         attempts = []
-        revs = vlib.dump_db(db)["revisions"]
-        j = []
-        for ai, (kind, fault) in enumerate(steps):
-            shutil.rmtree(mig, ignore_errors=True)
-            shutil.copytree(self.dirs[(shape, (fault or {}).get("x"))], mig)
-            con = sqlite3.connect(db)
-            con.executescript(L.trigger_sql(ai, (fault or {}).get("w") or 0))
-            con.commit()
-            con.close()
-            args = ["migrate", "apply"]
-            if kind == "fault" and ai < len(ns) and ns[ai]:
-                args.append(str(ns[ai]))
-            args += ["--dir", "file://migrations", "--url", "sqlite://" + db, "--tx-mode", "none"]
-            allow_dirty = not j
-            if allow_dirty:
-                args.append("--allow-dirty")
-            tf = os.path.join(d, "trace.%d" % ai)
-            rc, out, err = self._cli(args, d, env={"VERIF_TRACE": tf})
-            trace = [ln.strip() for ln in open(tf)] if os.path.exists(tf) else []
-            j, ev = self.read(db)
-            after = vlib.dump_db(db)["revisions"]
-            attempts.append({"kind": kind, "fault": fault, "rc": rc, "out": (out[-1500:] + "\n" + err[-800:]), "allow_dirty": allow_dirty,
-                             "x_reached": L.MISSING in out or L.MISSING in err,
-                             "events": [e[1:] for e in ev if e[0] == ai], "revs_before": revs, "revs_after": after,
-                             "j_after": j, "rev_before_hooks": sum(1 for t in trace if t.startswith("rev.before ")),
-                             "stmt_after_hooks": sum(1 for t in trace if t.startswith("stmt.after "))})
-            revs = after
-            if rc == 124:
-                break
+        try:
+            for kind, fault in [("fault", f) for f in case["faults"]] + [("clean", None), ("noop", None)]:
+                attempts.append(self.attempt(d, case, attempts, kind, fault))
+                if attempts[-1]["rc"] == 124:
+                    break
+        finally:
+            self.drop(d)
         return attempts
+
+
+def writes_of(at):
+    return sum(1 for e in at["events"] if e[0] == "W")
 
 
 def brief(attempts):
     out = []
     for at in attempts:
-        evs = " ".join(("X:%s" % e[1]) if e[0] == "X" else "W:%s=%s%s%s" % (e[1], e[2], "e" if e[4] else "", "!FAILED" if e[5] else "")
+        evs = " ".join(("X:%s" % e[1]) if e[0] == "X" else "W:%s=%s/%s%s%s" % (e[1], e[2], e[6], "e" if e[4] else "", "!FAILED" if e[5] else "")
                        for e in at["events"])
         revs = " ".join("%s:%d/%d%s" % (r["version"], r["applied"], r["total"], "E" if r.get("error") else "") for r in at["revs_after"])
         out.append("%-5s %-14s rc=%d%s | %s | revs %s | journal %s" % (at["kind"], L.fault_name(at["fault"]) if at["kind"] == "fault" else "",
@@ -189,12 +209,14 @@ def main():
     ctx = vlib.Ctx("C09")
     run = Runner(ctx)
     broken = []
+    stats = {"cases": 0, "fired_by_shape": {}, "positions": {}, "write_faults": 0}
 
-    def one(case):
-        attempts = run.run_case(case)
+    def verdict(case, attempts):
+        with ctx.lock:
+            stats["cases"] += 1
         if any(at["rc"] == 124 for at in attempts):
             ctx.inconclusive("watchdog")
-            return None, attempts
+            return None
         vd = L.judge(case, attempts)
         for key, what in vd.violations:
             ctx.violation(key, what, case, {"attempts": brief(attempts), "output_of_last_failed_run":
@@ -203,6 +225,12 @@ def main():
             ctx.inconclusive(why)
         for c in vd.classes:
             ctx.count(c)
+        sig = L.shape_sig(case["shape"])
+        with ctx.lock:
+            stats["write_faults"] += sum(1 for f in case["faults"] if f.get("w"))
+            stats["fired_by_shape"][sig] = stats["fired_by_shape"].get(sig, 0) + len(vd.positions)
+            for p in vd.positions:
+                stats["positions"][p] = stats["positions"].get(p, 0) + 1
         nf = len(case["faults"])
         ctx.count("cases:faults=%d" % nf)
         if any(case.get("n") or []):
@@ -210,7 +238,7 @@ def main():
         if vd.legit_repeats:
             ctx.count("cases-with-a-permitted-repeat")
         hooks = sum(a["rev_before_hooks"] for a in attempts)
-        seen = sum(1 for a in attempts for e in a["events"] if e[0] == "W")
+        seen = sum(writes_of(a) for a in attempts)
         ctx.count("revision-writes-issued-by-the-executor(hooks)", hooks)
         ctx.count("revision-writes-seen-on-the-table", seen)
         if hooks != seen:
@@ -220,12 +248,13 @@ def main():
             ctx.eval(vlib.digest(case["shape"], [(a["rc"] != 0, a["events"]) for a in attempts]), nontrivial=nf > 0)
         if nf == 2 and vd.legit_repeats and not vd.violations and not vd.inconclusive:
             ctx.sample({"case": L.case_name(case), "attempts": brief(attempts), "verdict": "held"}, cap=3)
-        return vd, attempts
+        return vd
 
     if ctx.replay:
         case = ctx.load_replay_case()
-        run.prepare([case])
-        vd, attempts = one(case)
+        run.prepare([case["shape"]])
+        attempts = run.run_linear(case)
+        vd = verdict(case, attempts)
         print(L.case_name(case))
         for ln in brief(attempts):
             print("  " + ln)
@@ -235,40 +264,132 @@ def main():
         ctx.finish("replay")
         sys.exit(1 if vd and vd.violations else 0)
 
-    cases = plan(ctx)
-    run.prepare(cases)
+    roots = plan(ctx)
+    run.prepare([r["shape"] for r in roots])
 
-    # the planning model against the real thing: the clean reference run of every shape must issue the
-    # number of revision writes / statements the model enumerates faults for
-    def reference(case):
-        vd, attempts = one(case)
-        _, writes, execs, _ = L.simulate(case["shape"], L.fresh(case["shape"]), None)
-        a = attempts[0]
-        got = (sum(1 for e in a["events"] if e[0] == "W"), sum(1 for e in a["events"] if e[0] == "X"))
-        if a["kind"] == "clean" and a["rc"] == 0 and (got != (len(writes), len(execs)) or a["rev_before_hooks"] != len(writes)) and not vd.violations:
+    def finish(node):
+        """Fault-free run from the state + no-op run: the verdict of the case that led here, and the list of
+        what can fail from here (statements executed, number of revision writes seen on the table)."""
+        d = run.workdir(node.db)
+        try:
+            case = node.case()
+            a1 = run.attempt(d, case, node.attempts, "clean", None)
+            a2 = run.attempt(d, case, node.attempts + [a1], "noop", None) if a1["rc"] != 124 else None
+            verdict(case, node.attempts + [a1] + ([a2] if a2 else []))
+        finally:
+            run.drop(d)
+        node.w, node.xs = writes_of(a1), [e[1] for e in a1["events"] if e[0] == "X"]
+
+    def probe(node):
+        """The fault-free FAULT-KIND attempt from the state (same `apply <n>` as the faulted attempts will use;
+        equals the clean run when there is no count): statements and writes that can be made to fail."""
+        n = node.root["n"] or []
+        ai = len(node.attempts)
+        if not (ai < len(n) and n[ai]):
+            return
+        d = run.workdir(node.db)
+        try:
+            a = run.attempt(d, node.case(), node.attempts, "fault", None)
+        finally:
+            run.drop(d)
+        node.w, node.xs = writes_of(a), [e[1] for e in a["events"] if e[0] == "X"]
+
+    def step(item):
+        """One faulted attempt from a state. Inner levels keep the resulting database as a new state; at the
+        last level the case is completed (clean run, no-op run) and judged right away."""
+        node, fault, out = item
+        d = run.workdir(node.db)
+        keep = False
+        try:
+            case = node.case([fault])
+            a = run.attempt(d, case, node.attempts, "fault", fault)
+            attempts = node.attempts + [a]
             with ctx.lock:
-                broken.append("%s: clean run made %d writes (%d by the hooks) / %d statements, the planning model says %d / %d"
-                              % (L.shape_sig(case["shape"]), got[0], a["rev_before_hooks"], got[1], len(writes), len(execs)))
+                out.append((node, fault, a))
+            if a["rc"] == 124:
+                verdict(case, attempts)
+            elif len(attempts) < MAX_FAULTS:
+                keep = True
+                child = Node(node.root, node.faults + [fault], attempts, os.path.join(d, "db.sqlite"), d)
+                with ctx.lock:
+                    children.append(child)
+            else:
+                a1 = run.attempt(d, case, attempts, "clean", None)
+                a2 = run.attempt(d, case, attempts + [a1], "noop", None) if a1["rc"] != 124 else None
+                verdict(case, attempts + [a1] + ([a2] if a2 else []))
+        finally:
+            if not keep:
+                run.drop(d)
 
-    refs = [c for c in cases if not c["faults"]]
-    rest = [c for c in cases if c["faults"]]
-    ctx.par(refs, reference)
-    rest.sort(key=lambda c: vlib.digest(ctx.seed, L.case_name(c)))
-    ctx.par(rest, lambda c: one(c))
+    def order(items):
+        return sorted(items, key=lambda it: vlib.digest(ctx.seed, L.case_name(it[0].case([it[1]]))))
+
+    nodes = [Node(r, [], [], run.db) for r in roots]
+    for depth in range(MAX_FAULTS):
+        ctx.par(nodes, finish)   # verdicts of the cases with `depth` faults; what can fail next
+        ctx.par(nodes, probe)
+        children, first, combos_wanted = [], [], []
+        for node in nodes:
+            cands = [("x", x) for x in node.xs] + [("w", k) for k in range(1, node.w + 1)] + [("xw", x) for x in node.xs]
+            pairs = node.root["pairs"]
+            if depth >= 1 and pairs != "all":
+                rnd = ctx.rand("second", L.case_name(node.case()))
+                cands = rnd.sample(cands, min(pairs, len(cands)))
+            for kind, v in cands:
+                if kind == "xw":
+                    combos_wanted.append((node, v))
+                else:
+                    first.append((node, {"x": v} if kind == "x" else {"w": v}, []))
+        sink = []
+        ctx.par(order([(n, f, sink) for n, f, _ in first]), step)
+        # statement fault + failure of the write that records it = the last write of the attempt in which x fails
+        last_write = {(id(n), f["x"]): writes_of(a) for n, f, a in sink if f.get("x") and not f.get("w")}
+
+        def learn(item):
+            node, x = item
+            d = run.workdir(node.db)
+            try:
+                a = run.attempt(d, node.case([{"x": x}]), node.attempts, "fault", {"x": x})
+            finally:
+                run.drop(d)
+            with ctx.lock:
+                last_write[(id(node), x)] = writes_of(a)
+
+        ctx.par([c for c in combos_wanted if (id(c[0]), c[1]) not in last_write], learn)
+        sink2 = []
+        second = [(n, {"x": x, "w": last_write[(id(n), x)]}, sink2) for n, x in combos_wanted if last_write.get((id(n), x))]
+        ctx.par(order(second), step)
+        for node in nodes:
+            run.drop(node.dir)
+        nodes = sorted(children, key=lambda n: L.case_name(n.case()))
 
     ctx.count("cli-runs", run.runs)
-    if ctx.inconcl > 0.05 * max(1, len(cases)) and not ctx.violations():
-        broken.append("%d of %d cases inconclusive (fault not reached): the planning model does not match the executor" % (ctx.inconcl, len(cases)))
-    shapes = sorted({L.shape_sig(c["shape"]) for c in cases})
+    # ---- validity guards: a run that injected nothing must not pass ----
+    if not ctx.violations():
+        if ctx.inconcl > 0.05 * max(1, stats["cases"]):
+            broken.append("%d of %d cases inconclusive (a write / statement seen in the fault-free enumeration run from the same state was "
+                          "not reached again when it was to fail: the injector does not fire, or the run is nondeterministic)" % (ctx.inconcl, stats["cases"]))
+        for r in roots:
+            sig = L.shape_sig(r["shape"])
+            if not stats["fired_by_shape"].get(sig):
+                broken.append("%s: no revision-write fault fired" % sig)
+        for p in ("first", "mid", "last"):
+            if not stats["positions"].get(p):
+                broken.append("no revision-write fault fired on a write of class '%s' (applied==0 / 0<applied<total / applied==total)" % p)
+    for p, c in stats["positions"].items():
+        ctx.count("write-fault-row:" + p, c)
+    shapes = sorted({L.shape_sig(r["shape"]) for r in roots})
     ctx.finish("real CLI, --tx-mode none, SQLite file, real revision table; per case: <= 2 faulted attempts (statement fails on the engine / "
-               "k-th revision write fails by trigger / both), clean run, no-op run. Offline over the trigger event log, journal rows and "
+               "k-th revision write fails by trigger / both), clean run, no-op run; faults enumerated adaptively from the writes and "
+               "statements observed in a fault-free run from the same state. Offline over the trigger event log, journal rows and "
                "revision rows read by python sqlite3: stored applied <= statements present; distinct statements form a prefix of canonical "
                "order; repeats <= 1 + failed own bookkeeping writes; resume at first unrecorded statement; a hit fault => exit != 0 and "
                "nothing executed afterwards; statement faults only => no duplicate; clean run: exit 0, everything present, revisions "
                "complete and error-free; then nothing to do. distinct = distinct (exit, event trace) histories with >= 1 fault",
-               {"shapes": shapes, "cases": len(cases), "cli_runs": run.runs,
-                "exhaustive": "all single faults and all pairs on every shape of <= 3 files x 1..3 statements and 6 shapes with a statement-less file" if not ctx.quick()
-                else "all single faults on %d shapes; pairs are a seeded sample" % len(refs), "check_broken": broken})
+               {"shapes": shapes, "cases": stats["cases"], "cli_runs": run.runs, "write_faults_fired_per_shape": stats["fired_by_shape"],
+                "exhaustive": "every statement and every observed revision write of every attempt, all pairs, on every shape of <= 3 files x 1..3 "
+                              "statements and 6 shapes with a statement-less file" if not ctx.quick()
+                else "all single faults on %d shapes; second faults are a seeded sample" % len(roots), "check_broken": broken})
     if ctx.violations():
         sys.exit(1)
     if broken:
